@@ -6,6 +6,7 @@ from .program import QUERY_KINDS, BF_MODES
 
 U7 = ['in', 'in/x', 'in/y', 'o', 'o/f', 'o/d', 'o/d/g']
 U9 = U7 + ['o/d/h', 'o/x']
+UN3 = ['o', 'o/d', 'o/d/g', 'o/m', 'o/w']
 
 IN, IND, TI, P1, T1, TS, T2, TX = 'in/x', 'in', 'in/y', 'o', 'o/f', 'o/d', 'o/d/g', 'o/x'
 
@@ -118,4 +119,26 @@ def skeleton(eng, name, P):
         t = pick(eng, 't', [T1, T2])
         return [[('BF', t, {'mode': 'ok', 'cmp': pick(eng, 'c', ['METADATA', 'HASH'])}, [q_hole(eng, '0', ['read_m', 'read_h'], [IN])]),
                  ('SB', 's', {}, [q_hole(eng, '1', ['read_m', 'read_h', 'get_size'], [t])])]]
+    if name == 'S1':
+        # a (failing, caught) build_file on a path that a later build_file of the same build uses as a directory
+        return [[('BF', TS, bf_opts(eng, '0', FAIL_MODES[:2] + ['ok'], catch=True), []),
+                 ('BF', T2, bf_opts(eng, '1', ['ok', 'raise_after'], catch=True), [])]]
+    if name == 'N3':
+        # every 3-level chain of subbuild / build_file with success or (caught) failure at each level,
+        # each output in a directory of its own, followed by a query at the root
+        tgt = {3: 'o/w', 2: 'o/m/x', 1: 'o/d/g'}
+
+        def gen(depth):
+            tag = 'n%d' % depth
+            body = [gen(depth - 1)] if depth > 1 else []
+            if depth > 1 and P.get('inner_q'):
+                body.append(q_hole(eng, tag, P['inner_q'], P.get('inner_roles', ['o/d', 'o/m'])))
+            if eng.choose('sb' + tag, 2):
+                mode = pick(eng, 'mode' + tag, P.get('sb_modes', ['ok', 'raise']))
+                return ('SB', 's%d' % depth, {'mode': mode, 'catch': mode != 'ok'}, body)
+            mode = pick(eng, 'mode' + tag, P.get('bf_modes', ['ok', 'raise_before', 'raise_after']))
+            return ('BF', tgt[depth], {'mode': mode, 'catch': mode != 'ok'}, body)
+
+        return [[gen(3), q_hole(eng, 'r', P.get('kinds', ['is_dir', 'list_dir', 'walk', 'exists', 'is_file']),
+                                P.get('roles', ['o', 'o/d', 'o/m', 'o/d/g', 'o/m/x']))]]
     raise ValueError(name)
